@@ -5,7 +5,7 @@ import math
 import numpy as np
 from hypothesis import strategies as st
 
-from .core import Violation
+from .core import Violation, canon  # noqa
 
 # ------------------------------------------------------------------------------------------------
 # strategies (all JSON-serialisable values)
